@@ -19,7 +19,7 @@ RULE = ('seeded connect() histories: 0..4 keys drawn from four fixture key pairs
         'SHA-1 digest, pure-integer check against the fixture public numbers) and the host packet log is compared with a reference handshake model. '
         'non-trivial = >= 2 keys offered and >= 1 signature rejected; distinct = event-log digests')
 ASSUMPTIONS = ['fixture keys were generated with `cryptography`, independently of adb_shell.auth.keygen', 'auth_timeout_s=None with a silent device is excluded (documented wait-forever)']
-EXPECT_PROBES = {'all': ['c05_pubkey_offered', 'c05_key_accepted', 'c05_bad_challenge', 'c05_no_keys', 'c05_reconnect', 'c05_callback', 'c05_silent_pubkey', 'auth_rechallenge_after_pubkey', 'stray_before_answer',
+EXPECT_PROBES = {'all': ['c05_pubkey_offered', 'c05_key_accepted', 'c05_bad_challenge', 'c05_no_keys', 'c05_reconnect', 'c05_callback', 'c05_silent_pubkey', 'auth_rechallenge_after_pubkey', 'auth_silent_after_signature', 'c05_auth_timeout_none', 'c05_banner_not_utf8', 'stray_before_answer',
                          'c05_signer_pycryptodome', 'c05_signer_cryptography', 'c05_signer_pythonrsa']}
 OWN = ('first-packet', 'signature-invalid', 'signature-order', 'signature-count', 'packet-after-cnxn', 'pubkey-early', 'pubkey-wrong', 'pubkey-missing', 'callback-count',
        'wrong-result', 'wrong-exception', 'missing-exception', 'unexpected-exception', 'timeout-instead-of-result', 'available-wrong', 'maxdata-wrong', 'auth-wait-short',
@@ -61,6 +61,8 @@ def generate(seed, tier):
             if g.chance(0.15):
                 a['bad_challenge_at'] = g.int(0, 3)
                 a['bad_challenge_arg0'] = g.pick([0, 2, 3, 7])
+            if g.chance(0.1) and nk:
+                a['silent_after_sig'] = g.int(0, nk - 1)
             if g.chance(0.3):
                 a['stray'] = [[g.pick(['OKAY', 'CLSE', 'WRTE']), g.int(1, 1 << 31), g.int(1, 9)] + ([g.bytes(3).hex()] if False else []) for _ in range(g.int(1, 2))]
                 for s in a['stray']:
@@ -69,6 +71,8 @@ def generate(seed, tier):
                 a['stray_each'] = g.chance(0.5)
         auths.append(a)
         at = g.pick([1.0, 5.0, 10.0])
+        if a is not None and a['pubkey'] in ('accept', 'late', 'rechallenge_accept') and g.chance(0.2):
+            at = None       # wait for the user for as long as it takes (the device does answer in the end)
         op = {'op': 'connect', 'keys': keys if (nk or g.chance(0.5)) else None, 'at': at, 'rt': g.pick([2.0, 10.0]), 'auth_cb': g.pick([None, 'ok', 'ok', 'raise'])}
         if g.chance(0.3):
             op['tt'] = g.pick([1.0, 3.0])
@@ -77,6 +81,8 @@ def generate(seed, tier):
     ops.append({'op': 'maxchunk'})
     ops.append({'op': 'push', 'src': 'bytesio', 'content': {'seed': 5, 'size': g.pick([100, 9000, 70000]), 'alpha': 'bin'}, 'path': '/data/local/tmp/after', 'mtime': 3})
     d['auth'] = auths
+    if g.chance(0.15):
+        d['banner_hex'] = g.pick([b'device::ro.product.model=Caf\xe9 Phone;ro.product.name=x', b'device::\xff\xfe\x00\x80binary', b'device::ro.product.model=\xc4\xe3\xba\xc3;features=cmd\x00\xc3']).hex()
     cfg = {'frag': g.pick(['whole', 'mixed', 'boundary']), 'call_cost': 1e-5, 'idle_cost': 0.05}
     scn = {'api': g.pick(['sync', 'async']), 'transport': 'mem', 'device': d, 'config': cfg, 'actors': [ops], 'object': {'banner': banner}}
     return {'seed': seed, 'scn': scn}
@@ -93,6 +99,9 @@ def model_connect(op, a):
     for i, (idx, kind) in enumerate(keys):
         if bad is not None and bad == i:
             return ('exc', ('InvalidResponseError',), i, False, False)
+        if a.get('silent_after_sig') == i:
+            # no answer to this signature: the key was not rejected, so nothing else may be tried or offered
+            return ('exc', O.TIMEOUT_EXCS, i + 1, False, False)
         if a.get('accept_key') == idx:
             return ('ok', i + 1, False, False)
     n = len(keys)
@@ -101,6 +110,8 @@ def model_connect(op, a):
         return ('exc', ('RuntimeError',), n, False, True)
     pol = a.get('pubkey', 'accept')
     at = op.get('at', 10.0)
+    if at is None:
+        at = float('inf')
     if pol.startswith('rechallenge'):
         # another AUTH(TOKEN) after the public key changes nothing: only the final CNXN counts
         pol = 'accept' if pol == 'rechallenge_accept' else 'silent'
@@ -141,6 +152,8 @@ def evaluate(case, tapes=None):
                 pr['c05_reconnect'] = 1
             exp = model_connect(op, a)
             where = 'connect#%d' % conn_i
+            if scn['device'].get('banner_hex') and rec['ok']:
+                pr['c05_banner_not_utf8'] = 1
             keys = op.get('keys') or []
             for (_, kind) in keys:
                 pr['c05_signer_' + kind] = 1
@@ -210,9 +223,12 @@ def evaluate(case, tapes=None):
                     ok = False
                 if not ok or blob != want_blob or not blob.endswith(b'\0'):
                     probs.append(O.P('pubkey-wrong', '%s: AUTH(RSAPUBLICKEY) payload is not the first key\'s public key + NUL (%d bytes, decodes to first key: %r)' % (where, len(blob), ok)))
-                if a.get('pubkey') in ('silent', 'rechallenge_silent') or (a.get('pubkey') == 'late' and a.get('late_s', 1.0) >= op.get('at', 10.0)):
+                at_eff = float('inf') if op.get('at', 10.0) is None else op.get('at', 10.0)
+                if at_eff == float('inf') and rec['ok']:
+                    pr['c05_auth_timeout_none'] = 1
+                if a.get('pubkey') in ('silent', 'rechallenge_silent') or (a.get('pubkey') == 'late' and a.get('late_s', 1.0) >= at_eff):
                     pr['c05_silent_pubkey'] = 1
-                    if not rec['ok'] and sess.get('pubkey_time') is not None and rec['t1'] - sess['pubkey_time'] < op.get('at', 10.0) - 1e-6:
+                    if not rec['ok'] and sess.get('pubkey_time') is not None and rec['t1'] - sess['pubkey_time'] < at_eff - 1e-6:
                         probs.append(O.P('auth-wait-short', '%s: gave up %.3f s after offering the public key; auth_timeout_s is %r' % (where, rec['t1'] - sess['pubkey_time'], op.get('at'))))
             want_cb = 1 if exp[-1] else 0
             if op.get('auth_cb'):
